@@ -142,6 +142,10 @@ func (f *frame) doCall(c *ssa.CallCommon, pos token.Pos, site ssa.Instruction) [
 			f.noteEvent("call", full, args, rs)
 			return rs
 		}
+		if rs, ok := f.devirtualise(c, recv, pos); ok {
+			f.noteEvent("call", full, args, rs)
+			return rs
+		}
 		rs := f.havocCall(nil, sig, c.Args, true)
 		f.noteEvent("call", full, args, rs)
 		return rs
@@ -253,7 +257,15 @@ func (f *frame) canInline(fn *ssa.Function) bool {
 }
 
 // inline translates the callee body in place.
+func (f *frame) inlineTerms(fn *ssa.Function, args []Term, pos token.Pos) []Term {
+	return f.inlineImpl(fn, nil, args, nil, pos)
+}
+
 func (f *frame) inline(fn *ssa.Function, argVals []ssa.Value, bindings []ssa.Value, pos token.Pos) []Term {
+	return f.inlineImpl(fn, argVals, nil, bindings, pos)
+}
+
+func (f *frame) inlineImpl(fn *ssa.Function, argVals []ssa.Value, argTerms []Term, bindings []ssa.Value, pos token.Pos) []Term {
 	vc := f.vc
 	if fn.Blocks == nil {
 		unsup("inline of bodyless %s", fn)
@@ -270,10 +282,14 @@ func (f *frame) inline(fn *ssa.Function, argVals []ssa.Value, bindings []ssa.Val
 	g := &frame{vc: vc, fn: fn, prefix: fmt.Sprintf("%si%d$", f.prefix, vc.names["inl"]), depth: f.depth + 1,
 		vals: map[ssa.Value]Term{}, ptrs: map[ssa.Value]*ptrDesc{}, tuples: map[ssa.Value][]Term{}, closures: map[ssa.Value]*ssa.MakeClosure{},
 		label: f.label, inlined: normName(fn.String())}
-	if len(argVals) != len(fn.Params) {
+	if argVals != nil && len(argVals) != len(fn.Params) || argVals == nil && len(argTerms) != len(fn.Params) {
 		unsup("arity mismatch inlining %s", fn)
 	}
 	for i, p := range fn.Params {
+		if argVals == nil {
+			g.vals[p] = argTerms[i]
+			continue
+		}
 		g.vals[p] = f.val(argVals[i])
 		if pd := f.ptrDescOf(argVals[i]); pd != nil {
 			g.ptrs[p] = pd
@@ -601,4 +617,173 @@ func (f *frame) selectInstr(x *ssa.Select) {
 			}
 		}
 	}
+}
+
+// switchExec runs each body under its condition from the same pre-state and merges.
+// Conditions must be mutually exclusive; def runs when none holds.
+func (f *frame) switchExec(conds []Term, bodies []func() []Term, def func() []Term, resultTypes []types.Type) []Term {
+	vc := f.vc
+	before := f.st
+	savedReach := vc.reach
+	var sts []*State
+	var reaches []Term
+	var results [][]Term
+	var named []Term
+	for i, c := range conds {
+		cn := vc.define(f.prefix+"case", c)
+		named = append(named, cn)
+		vc.reach = vc.define(f.prefix+"creach", mkAnd(savedReach, cn))
+		f.st = before.seq()
+		rs := bodies[i]()
+		sts = append(sts, f.st)
+		reaches = append(reaches, vc.reach)
+		results = append(results, rs)
+	}
+	none := mkNot(mkOr(named...))
+	vc.reach = vc.define(f.prefix+"creach", mkAnd(savedReach, none))
+	f.st = before.seq()
+	rs := def()
+	sts = append(sts, f.st)
+	reaches = append(reaches, vc.reach)
+	results = append(results, rs)
+	vc.reach = vc.define(f.prefix+"cmerge", mkOr(reaches...))
+	f.st = vc.mergeStates(sts, reaches)
+	out := make([]Term, len(resultTypes))
+	for k := range out {
+		r := results[len(results)-1][k]
+		for i := len(conds) - 1; i >= 0; i-- {
+			r = mkIte(named[i], results[i][k], r)
+		}
+		out[k] = vc.define(f.prefix+"cres", r)
+	}
+	return out
+}
+
+// implementations lists the in-repo concrete methods that an interface method call may dispatch to.
+func (P *Program) implementations(iface *types.Interface, method *types.Func) []implRec {
+	key := method.FullName()
+	if r, ok := P.implCache[key]; ok {
+		return r
+	}
+	var out []implRec
+	seen := map[string]bool{}
+	for _, pkg := range P.pkgs {
+		if !strings.HasPrefix(pkg.PkgPath, repoMod) {
+			continue
+		}
+		sc := pkg.Types.Scope()
+		for _, name := range sc.Names() {
+			tn, ok := sc.Lookup(name).(*types.TypeName)
+			if !ok || tn.IsAlias() {
+				continue
+			}
+			T := tn.Type()
+			if types.IsInterface(T) {
+				continue
+			}
+			if named, ok := T.(*types.Named); ok && named.TypeParams().Len() > 0 {
+				continue
+			}
+			for _, cand := range []types.Type{T, types.NewPointer(T)} {
+				if !types.Implements(cand, iface) {
+					continue
+				}
+				sel := P.prog.MethodSets.MethodSet(cand).Lookup(method.Pkg(), method.Name())
+				if sel == nil {
+					continue
+				}
+				fn := P.prog.MethodValue(sel)
+				if fn == nil || seen[fullType(cand)] {
+					continue
+				}
+				seen[fullType(cand)] = true
+				out = append(out, implRec{typ: cand, fn: fn})
+			}
+		}
+	}
+	if P.implCache == nil {
+		P.implCache = map[string][]implRec{}
+	}
+	P.implCache[key] = out
+	return out
+}
+
+type implRec struct {
+	typ types.Type
+	fn  *ssa.Function
+}
+
+const maxDevirt = 4
+
+// devirtualise turns an interface call with few in-repo implementations into a switch on the dynamic type.
+func (f *frame) devirtualise(c *ssa.CallCommon, recv Term, pos token.Pos) ([]Term, bool) {
+	vc := f.vc
+	iface, ok := c.Value.Type().Underlying().(*types.Interface)
+	if !ok {
+		return nil, false
+	}
+	impls := vc.P.implementations(iface, c.Method)
+	if len(impls) == 0 || len(impls) > maxDevirt {
+		return nil, false
+	}
+	// a pointer type *T and its value type T may both implement: both are distinct dynamic types
+	sig := c.Signature()
+	var rts []types.Type
+	for i := 0; i < sig.Results().Len(); i++ {
+		rts = append(rts, sig.Results().At(i).Type())
+	}
+	tt := f.tt()
+	var conds []Term
+	var bodies []func() []Term
+	for _, im := range impls {
+		im := im
+		if im.fn.Blocks == nil && im.fn.Synthetic == "" {
+			return nil, false
+		}
+		conds = append(conds, mkEq(ifTyp(recv), i64(int64(tt.typeID(im.typ)))))
+		bodies = append(bodies, func() []Term {
+			var rv Term
+			if f.isPtrLikeType(im.typ) {
+				rv = ifVal(recv)
+			} else {
+				hn, hs := tt.boxHeap(im.typ)
+				rv = mkSelect(f.st.get(hn, hs), ifVal(recv), tt.sortOf(im.typ))
+			}
+			return f.callConcrete(im.fn, rv, c, pos)
+		})
+	}
+	rs := f.switchExec(conds, bodies, func() []Term { return f.havocCall(nil, sig, c.Args, true) }, rts)
+	return rs, true
+}
+
+// callConcrete calls fn with an explicit receiver term and the arguments of c.
+func (f *frame) callConcrete(fn *ssa.Function, recv Term, c *ssa.CallCommon, pos token.Pos) []Term {
+	vc := f.vc
+	args := append([]Term{recv}, f.argTerms(c)...)
+	target := fn
+	// wrappers (synthetic) for promoted/pointer methods: call through contract/havoc only
+	if ct := vc.P.contractFor(target); ct != nil && !ct.onlyLoops() && !ct.Inline {
+		return f.contractCallTerms(target, ct, args, pos)
+	}
+	if target.Synthetic == "" && vc.P.inRepo(target) && f.canInline(target) {
+		return f.inlineTerms(target, args, pos)
+	}
+	if target.Synthetic != "" && target.Blocks != nil && f.canInline(target) {
+		return f.inlineTerms(target, args, pos)
+	}
+	mods := vc.P.modSet(target)
+	if mods["*"] {
+		f.st = vc.havocAll(f.st)
+	} else if len(mods) > 0 {
+		for k := range mods {
+			vc.noteWrite(k)
+		}
+		f.st = vc.havocSome(f.st, mods)
+	}
+	n := target.Signature.Results().Len()
+	rs := make([]Term, n)
+	for i := 0; i < n; i++ {
+		rs[i] = f.freshOf("ret", target.Signature.Results().At(i).Type())
+	}
+	return rs
 }
